@@ -76,11 +76,18 @@ class KernExporter(object):
 
     def __init__(self, part):
         self.part = part
-        note_array = part.note_array(include_staff=True)
         num_measures = len(part.measures)
         num_notes = len(part.notes)
         num_rests = len(part.rests)
-        self.unique_voc_staff = np.unique(note_array[["voice", "staff"]], axis=0)
+        # one column for every (voice, staff) pair that holds notes or rests
+        # (a pair may hold rests only, so the note array does not list all of them)
+        voc_staff = np.array(
+            [
+                (el.voice, el.staff)
+                for el in part.iter_all(spt.GenericNote, include_subclasses=True)
+            ]
+        ).reshape(-1, 2)
+        self.unique_voc_staff = np.unique(voc_staff, axis=0)
         self.vocstaff_map_dict = {
             f"{self.unique_voc_staff[i][0]}-{self.unique_voc_staff[i][1]}": i
             for i in range(self.unique_voc_staff.shape[0])
